@@ -310,7 +310,7 @@ def main():
             "guard": "vsb_verif",
             "enable": "RUSTFLAGS=\"--cfg vsb_verif\" (set by vlib/build.py for the harness and for the vsb binary the checks build)",
             "baseline_off_cmd": "cd /repo && cargo test --workspace --no-fail-fast --offline",
-            "source_commits": ["4a2459f"],
+            "source_commits": ["4a2459f", "00656bc"],
             "fix_commits": ["8b196ab", "64fc1ae", "9b93522", "a699f7c", "3bc0c53", "02f1099", "3543234", "d28d72c", "f378725", "113df45"],
             "add_only": True,
         },
